@@ -97,6 +97,7 @@ const (
 	ParseMessageType         byte = 'P'
 	BindMessageType          byte = 'B'
 	ExecuteMessageType       byte = 'E'
+	SyncMessageType          byte = 'S'
 	ErrorResponseType        byte = 'E'
 	ParseCompleteMessageType byte = '1'
 	BindCompleteMessageType  byte = '2'
@@ -273,6 +274,7 @@ func (proxy *PgProxy) ProxyClientConnection(ctx context.Context, errCh chan<- ba
 	// default value empty func to avoid != nil check
 	var spanEndFunc = func() {}
 	var timerObserveFunc = func() time.Duration { return 0 }
+	skipUntilSync := false
 	for {
 		timerObserveFunc()
 		packet.Reset()
@@ -288,6 +290,15 @@ func (proxy *PgProxy) ProxyClientConnection(ctx context.Context, errCh chan<- ba
 			logger.WithError(err).Debugln("Can't read packet from client to database")
 			errCh <- base.NewClientProxyError(err)
 			return
+		}
+		// A rejected Parse has already been answered with an error. As the database does after an error in the
+		// extended query protocol, drop the rest of the message group up to Sync: a Bind/Execute forwarded alone
+		// would run whatever statement was prepared under that name before.
+		if skipUntilSync {
+			if packet.messageType[0] == SyncMessageType {
+				skipUntilSync = false
+			}
+			continue
 		}
 		timer := prometheus.NewTimer(prometheus.ObserverFunc(base.RequestProcessingTimeHistogram.WithLabelValues(prometheusLabels...).Observe))
 		timerObserveFunc = timer.ObserveDuration
@@ -316,6 +327,7 @@ func (proxy *PgProxy) ProxyClientConnection(ctx context.Context, errCh chan<- ba
 				errCh <- base.NewClientProxyError(err)
 				return
 			}
+			skipUntilSync = packet.IsParse()
 			continue
 		}
 
